@@ -558,8 +558,8 @@ int hwloc_topology_diff_apply(hwloc_topology_t topology,
 			      hwloc_topology_diff_t diff,
 			      unsigned long flags)
 {
-	hwloc_topology_diff_t tmpdiff, tmpdiff2;
-	int err, nr;
+	hwloc_topology_diff_t tmpdiff;
+	int err, nr, i, j;
 
 	if (!(topology->state & HWLOC_TOPOLOGY_STATE_IS_LOADED)) {
 	  errno = EINVAL;
@@ -587,11 +587,14 @@ int hwloc_topology_diff_apply(hwloc_topology_t topology,
 	return 0;
 
 cancel:
-	tmpdiff2 = tmpdiff;
-	tmpdiff = diff;
-	while (tmpdiff != tmpdiff2) {
+	/* undo the nr-1 entries that were applied, last one first,
+	 * so that successive changes of the same attribute are unwound correctly
+	 */
+	for(i=nr-1; i>0; i--) {
+		tmpdiff = diff;
+		for(j=1; j<i; j++)
+			tmpdiff = tmpdiff->generic.next;
 		hwloc_apply_diff_one(topology, tmpdiff, flags ^ HWLOC_TOPOLOGY_DIFF_APPLY_REVERSE);
-		tmpdiff = tmpdiff->generic.next;
 	}
 	errno = EINVAL;
 	return -nr; /* return the index (starting at 1) of the first element that couldn't be applied */
